@@ -10,7 +10,7 @@ ENTRY = {'coq_dir': 'C04',
          '1-12) messages incl. empty, maximal, max+1 / wrong-size, > BACKPRESSURE_BOUNDARY; operations poll_ready / start_send / '
          'poll_flush / send_framed / Sink::poll_close / Substream::close in random interleavings (sink only, send_framed only, freely '
          'mixed incl. send_framed on a half-written Sink frame, writer stopping right after a flush, start_send then close without '
-         'flush); write and read scripts with chunk sizes 1-3, 1-40, boundary values, 2^20, Pending stalls, permanent stalls, carrier '
+         'flush — where the queued frames are, as the code has it, not sent); write and read scripts with chunk sizes 1-3, 1-40, boundary values, 2^20, Pending stalls, permanent stalls, carrier '
          'errors, zero-length accepts (WriteZero) and end of stream at random points, operations continued after errors; raw reader '
          'streams with truncated, non-minimal, over-long (10/11-byte) and oversized length prefixes, polled on after errors. After '
          'every writer operation: result, pending_out_bytes, queued frame lengths, pending_out_frame, bytes newly handed to the '
@@ -21,8 +21,8 @@ ENTRY = {'coq_dir': 'C04',
          'the WebSocket substream type on both ends (VerifYamuxPair hook): SinkExt::feed / flush / send_framed / close on one side, '
          'a concurrent reader on the other, messages up to 2 MB (several 256 KiB flow-control windows), fixed sizes up to 300000; the '
          'per-call results, the frames delivered and the clean end of stream are compared with the model\'s prediction. Non-trivial = '
-         'trace of >= 12 numbers; distinct = distinct (case, trace) pairs. The corpus witnesses of the seven repaired defects '
-         '(F-C04a..g) are replayed first on every run.',
+         'trace of >= 12 numbers; distinct = distinct (case, trace) pairs. The corpus witnesses of the six repaired defects '
+         '(F-C04a..f) and the close-without-flush observation cases are replayed first on every run.',
  'trusted_base': ['the scripted carrier of harness/src/c04.rs stands for the transport substream; tcp::Substream and websocket::Substream '
                   'are stateless pass-through wrappers of a yamux stream (read: metering only) and are exercised by the end-to-end cases; '
                   'the QUIC and WebRTC substream types are not run (QUIC send_framed uses write_all_chunks, a separate code path)',
@@ -32,15 +32,16 @@ ENTRY = {'coq_dir': 'C04',
                   'differential run',
                   'flush_all (SinkExt::flush(..).await inside send_framed / close) uses explicit fuel S(length script); '
                   'C04_flush_all_fuel_adequate shows the fuel is never exhausted'],
- 'level_text': 'Proof: on the model of the repaired src/substream/mod.rs (fix: commits F-C04a..g) — receiver totality for every codec, '
+ 'level_text': 'Proof: on the model of the repaired src/substream/mod.rs (fix: commits F-C04a..f) — receiver totality for every codec, '
                'byte stream, fragmentation and polling pattern (no panic, read buffer <= max(configured size, 1024)); malformed/oversized '
                'length => ReadFailure without allocation; reader round trip for every script incl. errors and end of stream at any point; '
                'conservation invariant (carrier bytes ++ queued bytes = encodings of the accepted messages in call order) over every '
                'history of poll_ready/start_send/poll_flush/send_framed/poll_close/close and every carrier behaviour incl. write errors '
                'and zero-length accepts (C04_mixed_paths_in_order: whole frames, each once, never interleaved or overtaking); poll_flush '
                'reports Ready(Ok) only with nothing queued; send_framed hands over the queued bytes and then exactly its frame when it '
-               'returns Ok; poll_close/close flush before shutting down (C04_close_flushes, C04_close_all_flushes); carrier errors are '
-               'reported by the call that met them; Pending only after a Pending carrier call; sender refusal; backpressure bound; '
+               'returns Ok; poll_close/close are the carrier\'s shutdown only: they hand over no byte and leave the queue alone '
+               '(C04_close_sends_nothing), and after a completed flush a completed close has everything on the wire and the carrier '
+               'shut down (C04_close_after_flush_complete, C04_close_all_after_flush_complete); carrier errors are reported by the call that met them; Pending only after a Pending carrier call; sender refusal; backpressure bound; '
                'end-to-end round trip; Identity(0) and UnsignedVarint(None) stated as the code behaves (C04_identity_zero, '
                'C04_varint_none_unbounded_alloc). The model is tied to the Rust code by a per-call differential run with state dumps '
                'and by end-to-end runs over real yamux substreams of the TCP and WebSocket types.',
@@ -53,5 +54,6 @@ ENTRY = {'coq_dir': 'C04',
  'assumptions': ['message length < 2^64 (usize)',
                  'Identity(0) excluded from the completeness clause (C04_identity_zero states what happens instead)',
                  'every send_framed call of a history returned Ok or PermissionDenied (a failed or abandoned call is reported to the caller; the stream is then unusable)',
-                 'Substream::close(self) ignores errors: C04_close_all_flushes assumes a carrier that does not fail',
+                 'Substream::close(self) ignores errors: C04_close_all_after_flush_complete assumes a carrier that does not fail',
+                 'observation, not part of the property: close drops start_send frames that were never flushed (C04_close_drops_unflushed); callers flush first',
                  '0 < BACKPRESSURE_BOUNDARY (checked against the source constant)']}
